@@ -1,9 +1,16 @@
 /-! # Sorting of slot arrays (no dependence on any generated data) -/
 namespace CK
 
-/-- `sort_unstable(); reverse()` on the slot array (`core`'s sort is given its documented meaning:
-    an ascending rearrangement; on integers stability is unobservable) -/
-def sortDesc (l : List Nat) : List Nat := (l.mergeSort (fun a b => decide (a ≤ b))).reverse
+/-- insert into a non-increasing list -/
+def insertDesc (x : Nat) : List Nat → List Nat
+  | [] => [x]
+  | y :: ys => if x ≥ y then x :: y :: ys else y :: insertDesc x ys
+
+/-- `sort_unstable(); reverse()` on the slot array: the non-increasing rearrangement (`core`'s sort is
+    given its documented meaning; on integers stability is unobservable, so any sorting algorithm
+    yields the same list — `Lemmas.sorted_perm_unique`).  Written as an insertion sort so that the
+    kernel can evaluate it. -/
+def sortDesc (l : List Nat) : List Nat := l.foldr insertDesc []
 
 /-- the scan of `Six/Seven::are_unique` over the sorted copy -/
 def scan : Nat → List Nat → Bool
